@@ -22,6 +22,12 @@ Proof.
   rewrite ?Nat.eqb_refl. simpl. rewrite ?Nat.eqb_refl. simpl. rewrite ?Nat.eqb_refl. reflexivity.
 Qed.
 
+Ltac held_done :=
+  try (now apply lock_done_idle);
+  try (match goal with |- context [translate ?a ?b] => destruct (translate a b) end;
+       unfold finish_op, set_held; simpl; unfold updf;
+       repeat (rewrite Nat.eqb_refl; simpl); reflexivity).
+
 Theorem cv_wait_returns_locked_strong nv kinds home progs s v t r l c ret en s' :
   Reach nv kinds home progs s -> runq (vc s v) = Th t :: r -> pend (vc s v) = None ->
   (tpc (th s t) = PLockTry l (KWait c ret en) \/ tpc (th s t) = PLockSlept l (KWait c ret en)) ->
@@ -35,10 +41,10 @@ Proof.
     - unfold lock_try in H. destruct (lown s l).
       + destruct (lkd s l); [|discriminate]. destruct (lk (th s t)); [discriminate|]. inversion H; subst.
         unfold set_pc in Hi. rewrite th_updT_same in Hi. simpl in Hi. discriminate.
-      + inversion H; subst. Show. first [now apply lock_done_idle|apply lock_done_idle0].
+      + inversion H; subst. held_done.
     - destruct (take_err s t) as [[a b] s1]. destruct ((a <? 0) && (b =? -1)).
       + destruct (lown s1 l) as [o|]; [destruct (Nat.eqb o t)|]; inversion H; subst;
-          try (first [now apply lock_done_idle|apply lock_done_idle0]); unfold set_pc in Hi; rewrite th_updT_same in Hi; simpl in Hi; discriminate.
-      + destruct (translate a b). inversion H; subst. first [now apply lock_done_idle|apply lock_done_idle0]. }
+          try held_done; unfold set_pc in Hi; rewrite th_updT_same in Hi; simpl in Hi; discriminate.
+      + destruct (translate a b). inversion H; subst. held_done. }
   split; auto. eapply li_ho; eauto. eapply LI_reachable; eauto.
 Qed.
